@@ -318,7 +318,8 @@ def match_known(prop, problem):
 
 def finish(res, level="proof", checker_cmd="lake build && lake env lean Audit_<id>.lean (#print axioms)", trusted=None, explanation=None):
     prop = res.prop
-    os.makedirs(os.path.join(VERIF, "evidence", "replays"), exist_ok=True)
+    evdir = os.environ.get("VERIF_EVIDENCE_DIR", os.path.join(VERIF, "evidence"))
+    os.makedirs(os.path.join(evdir, "replays"), exist_ok=True)
     violations, known = [], {}
     for pr in res.problems:
         f = match_known(prop, pr) if pr.kind == "monitor" else None
@@ -333,7 +334,7 @@ def finish(res, level="proof", checker_cmd="lake build && lake env lean Audit_<i
         exit_code = 1
         concrete = [p for p in violations if p.kind == "monitor"]
         h = hashlib.sha1(json.dumps([p.to_json() for p in violations], sort_keys=True, default=str).encode()).hexdigest()[:10]
-        rp = os.path.join(VERIF, "evidence", "replays", f"{prop}-{h}.json")
+        rp = os.path.join(evdir, "replays", f"{prop}-{h}.json")
         json.dump({"property": prop, "tier": res.tier, "seed": res.seed,
                    "concrete_failing_inputs": [p.to_json() for p in concrete][:20],
                    "broken_obligations_or_correspondence": [p.to_json() for p in violations if p.kind != "monitor"][:20]},
@@ -360,7 +361,7 @@ def finish(res, level="proof", checker_cmd="lake build && lake env lean Audit_<i
     ev = {"property_id": prop, "tier": res.tier, "seed": res.seed, "level": level, "coverage": cov,
           "assumptions": res.assumptions, "wall_s": round(time.time() - res.t0, 2), "violations": len(violations),
           "known_findings_reobserved": sorted(known.keys())}
-    json.dump(ev, open(os.path.join(VERIF, "evidence", f"{prop}.json"), "w"), indent=1, default=str)
+    json.dump(ev, open(os.path.join(evdir, f"{prop}.json"), "w"), indent=1, default=str)
     return exit_code
 
 
